@@ -14,13 +14,21 @@ TEXT = {
            "virtual clock, gated collector) and every recorded observation trace is validated by TLC against the observer "
            "spec TraceStore, which judges with the same XsProps operators."),
 }
+TEXT["conc"] = ("XsConcurrent (code-layer TLA+ model of Store::append / Store::read(follow) / last-id polling, one action per "
+                "gate-to-gate segment: id assignment under the append lock, commit, broadcast, return; subscribe, history pulls, "
+                "threshold, done hand-off, live receive/dedupe/send, heartbeat, consumer) is exhausted by TLC for 2 writers and small "
+                "buffers; TLC -simulate schedules of it and seeded random walks over the parked actors (implementation-side "
+                "exploration) drive the real threads through the xs_verif gate scheduler; every event log is validated by TLC "
+                "against the observer spec TraceFollow.")
 NOTE = {
+ "conc": "Trusted: TLC, the gate hooks (events are logged under one mutex after the state change), rank abstraction of ids. Bounded: MC_conc_*.cfg constants; schedules sampled.",
  "store": "Trusted: TLC, the harness' abstraction of concrete values back to model tokens, the xs_verif hooks (virtual clock, GC gate, raw dump). Bounded: model constants in spec/MC_store_*.cfg; behaviours sampled, not enumerated.",
 }
 TECH = {
+ "conc": "TLC model checking of XsConcurrent + gate-scheduled replay/exploration of real threads + TLC trace validation (TraceFollow)",
  "store": "TLC model checking of XsStore + TLC trace validation (TraceStore) of replayed behaviours on the real store",
 }
-DESIGN = {"store": "DESIGN.md 3, 4, 5 (C01 C05 C07 C08 C09 C20)"}
+DESIGN = {"conc": "DESIGN.md 3, 4.1, 5 (C02 C03 C11)", "store": "DESIGN.md 3, 4, 5 (C01 C05 C07 C08 C09 C20)"}
 
 hooks_commits = subprocess.run("git -C /repo log --format=%h --grep='^verif hooks' ", shell=True, capture_output=True, text=True).stdout.split()
 
